@@ -511,6 +511,7 @@ def hist_body(ctx, c):
                 continue
             conn, pool = target_conn(w, ch, a["target"])
             nt = nontrivial(conn, facts, a)
+            temp_before = w.ctxt.temp_connections.get(ch.laddr) if c["state"] == "temp" else None
             injected += 1
             ctx.evaluations += 1
             out = "loop-only"
@@ -525,7 +526,12 @@ def hist_body(ctx, c):
                 # through the real loop: the keyed half-open connection may expire, but it must not be replaced or re-keyed
                 w.step(0.02)
                 cur = w.ctxt.temp_connections.get(ch.laddr)
-                if cur is not None and (cur is not temp0[0] or cur.session_key_bytes != temp0[1] or cur.token != temp0[2]):
+                # (once the half-open connection has expired - temp timeout, 2 s - the address is unknown again and a complete
+                # fresh hello legitimately starts a new handshake: only a replacement of the connection that was still there when
+                # the datagram was injected counts)
+                hello_t = [em.t + min(em.fates) for em in w.net.log if em.src == ch.laddr and em.fates and W.parse_header(em.data).type == W.T_CLIENT_HELLO]
+                alive = bool(hello_t) and w.clock.t - hello_t[0] < 2.0 - 0.06       # harness's own record of when the half-open connection began
+                if temp_before is temp0[0] and alive and cur is not None and (cur is not temp0[0] or cur.session_key_bytes != temp0[1] or cur.token != temp0[2]):
                     ctx.violation("temp-connection-replaced", "attack %r replaced / re-keyed the server's keyed half-open connection for %s" % (a, ch.laddr))
             ctx.label("state=" + pool)
             if nt:
